@@ -27,11 +27,29 @@ fn direct(args: &Args, report: &mut Report) {
             return;
         }
     };
-    file.set_len(256 * 4096).unwrap();
+    file.set_len(2048 * 4096).unwrap();
     let file = Arc::new(file);
     let mut rng = Rng::new(args.seed);
     let rounds = args.num("rounds", 40);
+    let mon = crate::mon::hub().watch(&path);
     for round in 0..rounds {
+        // failures on the io_uring path: one SQE of this round's batch is completed with EBADF, one
+        // io_uring_enter is interrupted; in the last round io_uring_enter fails for good (the
+        // outcome is indeterminate and the buffers still queued must be leaked, not freed)
+        let last = round + 1 == rounds;
+        let (enter_now, _) = mon.enter_stats();
+        let mut plan = crate::mon::FaultPlan { uring: true, ..Default::default() };
+        if round % 3 == 1 {
+            plan.at.push((mon.calls() + 8 + rng.below(6) as u32, crate::mon::Fault::Before));
+        }
+        if round % 3 == 2 {
+            plan.enter.push((enter_now, 4));
+            plan.enter.push((enter_now + 1, 4));
+        }
+        if last {
+            plan.enter.push((enter_now + rng.below(2) as u32, 5));
+        }
+        mon.set_plan(plan);
         let mut io = match DiskIO::new(file.clone(), true) {
             Ok(io) => io,
             Err(e) => {
@@ -68,7 +86,23 @@ fn direct(args: &Args, report: &mut Report) {
                 }
                 report.count("direct_batches", 1);
             }
+            Err(feoxdb::FeoxError::IndeterminateWrite(_)) if last => report.count("direct_batches_indeterminate", 1),
+            Err(feoxdb::FeoxError::IoError(_)) if round % 3 == 1 => report.count("direct_batches_failed_sqe", 1),
             Err(e) => report.inconclusive.push(format!("batch_write: {e:?}")),
+        }
+        // long extents: reads and writes of several hundred blocks (more than one internal chunk,
+        // and not a whole number of chunks)
+        if !last && round % 4 == 0 {
+            let blocks = *rng.pick(&[257u64, 300, 511, 513, 700, 1024]);
+            let data = rng.bytes(blocks as usize * 4096);
+            if io.write_sectors_sync(600, &data).is_ok() {
+                match io.read_sectors_sync(600, blocks) {
+                    Ok(back) if back == data => report.count("direct_long_roundtrips", 1),
+                    Ok(_) => report.violation("san:direct-readback", "long O_DIRECT read returned different bytes than written", json!({"engine": "san", "mode": "direct"})),
+                    Err(e) => report.inconclusive.push(format!("long direct read: {e:?}")),
+                }
+            }
+            report.evaluations += 1;
         }
         let _ = io.flush();
         io.shutdown();
@@ -95,6 +129,16 @@ fn direct(args: &Args, report: &mut Report) {
             }
         }
         report.nontrivial.insert(fnv_mix(round, 1));
+    }
+    mon.clear_plan();
+    crate::mon::hub().unwatch(&mon);
+    let (q, c, ce, leaked, violations) = crate::mon::hub().uring_stats();
+    report.count("uring_buffers_queued", q);
+    report.count("uring_buffers_completed", c);
+    report.count("uring_buffers_completed_with_error", ce);
+    report.count("uring_buffers_left_in_flight", leaked as u64);
+    for v in violations {
+        report.violation("san:inflight-buffer-dropped", v, json!({"engine": "san", "mode": "direct"}));
     }
     let _ = std::fs::remove_file(&path);
 }
@@ -190,6 +234,46 @@ fn mini(args: &Args, report: &mut Report) {
         feoxdb::verif::set_force_sync_io(false);
         let _ = std::fs::remove_file(&path);
         report.nontrivial.insert(fnv_mix(seed, 3));
+    }
+    // (c) values of more than a megabyte that have to be read back from the device (long extents)
+    if args.get("big").is_some() {
+        let dir = std::env::var("VERIF_TMP").unwrap_or_else(|_| "/tmp".into());
+        let path = format!("{dir}/fvh-big-{}.feox", std::process::id());
+        let _ = std::fs::remove_file(&path);
+        let sizes = [1_200_000usize, 2_621_440 - 100, 4 * 1024 * 1024, 1_048_576 + 1];
+        for (round, sync) in [(0u32, true), (1, false)] {
+            feoxdb::verif::set_force_sync_io(sync);
+            let open = || feoxdb::FeoxStore::builder().device_path(path.clone()).file_size(4096 * 6144).hash_bits(4).no_memory_limit().enable_caching(false).enable_ttl(true).build();
+            let store = open().expect("big store");
+            for (i, size) in sizes.iter().enumerate() {
+                let k = format!("big{i}").into_bytes();
+                let _ = store.insert(&k, &values::make(Tag { key_id: i as u32, writer: 0, seq: round }, *size));
+            }
+            let _ = store.flush();
+            drop(store);
+            let store = open().expect("big store reopen");
+            for (i, size) in sizes.iter().enumerate() {
+                let k = format!("big{i}").into_bytes();
+                match store.get(&k) {
+                    Ok(v) if v.len() == *size && values::check(&v).is_ok() => report.count("big_disk_reads", 1),
+                    Ok(v) => report.violation("san:big-bad-value", format!("a {size}-byte value read back from the device is damaged (got {} bytes)", v.len()), json!({"engine": "san", "mode": "mini"})),
+                    Err(e) => report.inconclusive.push(format!("big read: {e:?}")),
+                }
+            }
+            let _ = store.update_ttl(b"big1", 3600); // TTL-only update of a value that lives on the device only
+            let _ = store.range_query(b"big", b"bih", 10).map(|r| report.count("big_range_values", r.len() as u64));
+            let _ = store.flush();
+            let _ = store.get(b"big1");
+            for i in 0..sizes.len() {
+                let _ = store.delete(format!("big{i}").as_bytes());
+            }
+            let _ = store.flush();
+            report.evaluations += 16;
+            drop(store);
+        }
+        feoxdb::verif::set_force_sync_io(false);
+        let _ = std::fs::remove_file(&path);
+        report.nontrivial.insert(fnv_mix(seed, 5));
     }
     report.nontrivial.insert(fnv_mix(seed, 4));
 }
